@@ -23,6 +23,13 @@ def mk(n, *b):
     return InterfaceClass(n, b or (Interface,), {'__module__': wmod()})
 
 
+class Tok(str):
+    """A registered value that can also serve as an adapter factory."""
+
+    def __call__(self, *obs):
+        return (str(self), 'adapted')
+
+
 class World:
     def __init__(self, cfg):
         newworld()
@@ -32,6 +39,8 @@ class World:
         self.R1 = mk('R1', self.R)
         self.P = mk('P')
         self.PU = mk('PU')
+        from zope.interface import implementer
+        self.ob = implementer(self.R1)(type('K', (), {}))()
         if self.kind == 'components':
             self.reg = {n: Components(n) for n in self.names}
         else:
@@ -61,7 +70,7 @@ class World:
             self.reg[n].__bases__ = tuple(self.reg[b] for b in bs)
             self.bases = nb
         elif t == 'reg':
-            self.areg(n).register([self.R], self.P, '', 'V' + n)
+            self.areg(n).register([self.R], self.P, '', Tok('V' + n))
             if self.kind == 'components':
                 self.reg[n].registerUtility('U' + n, self.PU)
             self.regd.add(n)
@@ -114,6 +123,7 @@ class World:
             r.lookup([self.R1], self.P)
             r.subscriptions([self.R1], self.P)
             r.lookupAll([self.R1], self.P)
+            r.queryAdapter(self.ob, self.P)
             if self.kind == 'components':
                 self.reg[n].queryUtility(self.PU)
         return True
@@ -124,6 +134,11 @@ class World:
             order = gen.c3(n, self.bases, {})
             r = self.areg(n)
             exp = next(('V' + m for m in order if m in self.regd), None)
+            # queryAdapter first: it is an entry point of its own in the C
+            # accelerator and must notice changes without the help of the others
+            got = r.queryAdapter(self.ob, self.P)
+            if got != (None if exp is None else (exp, 'adapted')):
+                return ('queryAdapter', n, got, exp, dict(self.bases))
             for req in (self.R, self.R1):
                 got = r.lookup([req], self.P)
                 if got != exp:
